@@ -158,6 +158,10 @@ class AppendableArray:
     def close(self):
         if self.__is_init:
             self.fp.close()
+            # Do not keep the closed handle: (dill-)pickling an object that holds it
+            # re-opens the file in its original mode ("wb") on loading, which
+            # truncates the samples already written.
+            self.fp = None
 
             self.__is_init = False
 
